@@ -108,11 +108,11 @@ def run(tier):
         for (na, _), (nb, _) in itertools.product(vals, repeat=2):
             if op == '**' and nb == 'hugeint':
                 continue        # int ** (10^40) does not terminate in CPython: outside every stated quantifier (DESIGN.md, observation F22)
-            cases.append({'expr_text': f'{na} {op} {nb}', 'globals': gspec, 'builtins': True})
+            cases.append({'expr_text': f'{na} {op} {nb}', 'globals': {na: gspec[na], nb: gspec[nb]}, 'builtins': True})
             meta.append(('matrix', op, na, nb))
     for op in ('!', '-'):
         for na, _ in vals:
-            cases.append({'expr_text': f'{op}{na}', 'globals': gspec, 'builtins': True})
+            cases.append({'expr_text': f'{op}{na}', 'globals': {na: gspec[na]}, 'builtins': True})
             meta.append(('unary', op, na, None))
     # ---- (2) effect trees through execute_script
     n_trees = 700 if tier == 'quick' else 8000
